@@ -310,7 +310,10 @@ class CSSStyleSheet(cssutils.stylesheets.StyleSheet):
             rule.cssText = self._tokensupto2(tokenizer, token)
             if rule.wellformed:
                 self.insertRule(rule)
-            return 3
+                return 3
+            else:
+                # an ignored (invalid) ruleset does not end e.g. @import rules
+                return expected
 
         # save for possible reset
         oldCssRules = self.cssRules
